@@ -175,6 +175,7 @@ class Q:
             if n.id in self.dead:
                 fail(n, f'read of a dead name ({self.dead[n.id]})')
             if n.id in self.env:
+                self.gen.read_names.add(n.id)
                 return self.env[n.id]
             fail(n, 'unknown name')
         if isinstance(n, ast.Constant):
@@ -871,6 +872,7 @@ class Gen:
         self.g.run()                                 # the definitions of GraphicalModelG.lean this file calls must translate
         self.methods, self.funcs = self.g.methods, self.g.funcs
         self.out = []
+        self.read_names = set()
 
     def need_field(self, field, node):
         init = self.methods.get('__init__') or fail(node, '__init__ not found')
@@ -955,6 +957,7 @@ class Gen:
             # the variant in which `hasattr(self, …)` is False: the guarded statement is skipped
             body = [s for s in body if not (isinstance(s, ast.If) and ast.unparse(s.test).startswith('hasattr(self,'))]
         q = Q(self, spec, env)
+        self.read_names = set()
         pre = None
         if spec.get('asserts_elsewhere'):
             asserts = [s for s in body if isinstance(s, ast.Assert)]
@@ -987,6 +990,10 @@ class Gen:
             fail(fn, f'no longer reads self.{sorted(declared - q.used_fields)[0]}')
         if spec['flags'] - spec['used_flags']:
             fail(fn, f'no longer tests {sorted(spec["flags"] - spec["used_flags"])[0]}')
+        if not spec.get('after'):
+            for p_, _, kind in spec['params']:
+                if kind in ('arg', 'closure') and p_ not in self.read_names:
+                    fail(fn, f'no longer reads its argument `{p_}`')
         missing = [c for c in spec['contracts'] if c not in q.used_contracts]
         if missing:
             fail(fn, f'no longer uses the contract `{missing[0]}`')
